@@ -27,9 +27,9 @@ import (
 type errUseKind int
 
 const (
-	useTest errUseKind = iota // appears in a condition / classification
-	useLog                    // argument of a logging call
-	usePropagate              // return, send, assignment to something else, argument of a non-logging call
+	useTest      errUseKind = iota // appears in a condition / classification
+	useLog                         // argument of a logging call
+	usePropagate                   // return, send, assignment to something else, argument of a non-logging call
 )
 
 type errSite struct {
